@@ -164,6 +164,14 @@ def rule_write(R):
         inline_write = True
     R.exact("write/sites", len(ws), 1, "write sites in perform_outbound_step")
     t = peel(pcode.operand_term(ws[0].args[1]))
+    # the prepared write steps: a `WriteStep { bytes, written, .. }` struct or a `PreparedStep::Write { bytes, written, .. }` variant
+    steps = []
+    for bb, j, s in pcode.assigns():
+        rv = s["rv"]
+        if bb in pcode.reachable and "agg" in rv and ((rv["agg"].get("adt") or "").endswith("WriteStep") or (
+                (rv["agg"].get("adt") or "").endswith("PreparedStep") and rv["agg"].get("variant") == "Write" and "bytes" in (rv["agg"].get("fields") or []))):
+            a = pcode.rvalue_term(rv)
+            steps.append((dict(zip(a[4], a[5])), s["span"]))
     ok = is_call(t, "Index::index", "index") and len(t[3]) == 2
     if ok:
         base = t[3][0]
@@ -172,17 +180,21 @@ def rule_write(R):
         rb_, nb_ = chain(base)
         rs_, ns_ = chain(rng[5][0]) if okr else (None, [])
         ok = okr and nb_[-1:] == ["bytes"] and ns_[-1:] == ["written"] and nb_[:-1] == ns_[:-1] and same_shape(rb_, rs_)
+        if okr and not ok and steps:
+            # the step's fields read through to the values they were built from: one (bytes, written) pair per step, in order
+            b_alts = [peel(x) for x in phi_alts(peel(base))]
+            w_alts = [peel(x) for x in phi_alts(peel(rng[5][0]))]
+            ok = len(b_alts) == len(w_alts) == len(steps) and all(
+                "bytes" in fl and "written" in fl and same_shape(b_alts[i], peel(fl["bytes"])) and same_shape(w_alts[i], peel(fl["written"]))
+                for i, (fl, _) in enumerate(steps))
     R.ob("write/resume-slice", ok,
          "the bytes handed to the transport are step.bytes[step.written ..]: a partially written packet is continued, "
          "never restarted or skipped", where=ws[0].span)
     # WriteStep.written comes from the entry's recorded state; bytes from the matching serialisation
     n = 0
-    for bb, j, s in pcode.assigns():
-        rv = s["rv"]
-        if bb in pcode.reachable and "agg" in rv and (rv["agg"].get("adt") or "").endswith("WriteStep"):
+    for fl, span_ in steps:
+        if True:
             n += 1
-            a = pcode.rvalue_term(rv)
-            fl = dict(zip(a[4], a[5]))
             r, nm = chain(fl["written"]) if "written" in fl else (None, [])
             okw = nm[-3:] == ["state", "@Write", "written"] and r == ("param", "step")
             if "len" in fl:
@@ -192,7 +204,7 @@ def rule_write(R):
                 okl = "bytes" in fl   # no separate length is carried: the length is that of the bytes by construction
             R.ob("write/step-fields#%d" % n, okw and okl,
                  "a write step starts at the entry's recorded `written` and its length is the length of its bytes (written %s)"
-                 % (show(fl["written"]) if "written" in fl else "not carried by the step"), where=s["span"])
+                 % (show(fl["written"]) if "written" in fl else "not carried by the step"), where=span_)
     R.floor("write/step-fields", n, 3, "WriteStep constructions")
     # write_current: Ok(0) -> WriteZero, Ok(n) -> n
     wc = pcode if inline_write else f.code(roles.free_fn(f, "write_current"))
